@@ -2,7 +2,7 @@
 use crate::astdump;
 use crate::cases::Cases;
 use crate::gal::*;
-use crate::genlua::gen_program;
+use crate::genlua::{gen_program, gen_unused_program};
 use crate::rng::Rng;
 use selene_lib::lints::AstContext;
 use serde_json::json;
@@ -53,11 +53,21 @@ pub fn generate(seed: u64, n: usize, _thorough: bool) -> Cases {
     roots.sort();
     roots.dedup();
     let roots_term = glist(roots.iter(), |s| gstr(s));
-    let checker: selene_lib::Checker<toml::value::Value> =
-        selene_lib::Checker::new(selene_lib::CheckerConfig::default(), lib).unwrap();
+    cases.prelude = format!("Definition the_lib : Lib.lib := {}.", glib(&lib));
+    // unused_variable's two options: (ignore_pattern, allow_unused_self)
+    const PATTERNS: [&str; 4] = ["^_", "^_", "^[ab]$", "^$"];
+    let mut checkers = Vec::new();
+    for pat in PATTERNS.iter() {
+        for allow in [true, false] {
+            let text = format!("[config]\nunused_variable = {{ ignore_pattern = \"{pat}\", allow_unused_self = {allow} }}\n");
+            let config: selene_lib::CheckerConfig<toml::value::Value> = toml::from_str(&text).unwrap();
+            let ck: selene_lib::Checker<toml::value::Value> = selene_lib::Checker::new(config, lib.clone()).unwrap();
+            checkers.push((regex::Regex::new(pat).unwrap(), allow, *pat, ck));
+        }
+    }
     for i in 0..n {
         let mut r = rng.fork(i as u64);
-        let (src, shapes) = gen_program(&mut r);
+        let (src, shapes) = if r.chance(1, 5) { gen_unused_program(&mut r) } else { gen_program(&mut r) };
         let ast = match full_moon::parse_fallible(&src, full_moon::LuaVersion::lua51()).into_result() {
             Ok(a) => a,
             Err(_) => continue,
@@ -74,17 +84,26 @@ pub fn generate(seed: u64, n: usize, _thorough: bool) -> Cases {
             }
         };
         let (refs, vars, nr, nv) = scope_term(&ctx);
+        let which = if r.chance(1, 2) { 0 } else { r.below(checkers.len()) };
+        let (ignore_re, allow_self, pattern, checker) = &checkers[which];
         let diags = match catch_unwind(AssertUnwindSafe(|| checker.test_on(&ast))) { Ok(d) => d, Err(_) => continue };
+        let mut ignored: Vec<String> = ctx.scope_manager.variables.iter().map(|(_, v)| v.name.clone()).filter(|n| ignore_re.is_match(n)).collect();
+        ignored.sort();
+        ignored.dedup();
         let rng = |d: &selene_lib::CheckerDiagnostic| grng((d.diagnostic.primary_label.range.0 as usize, d.diagnostic.primary_label.range.1 as usize));
         let undefined = glist(diags.iter().filter(|d| d.diagnostic.code == "undefined_variable"), |d| rng(d));
-        let unused = glist(diags.iter().filter(|d| d.diagnostic.code == "unused_variable"), |d| rng(d));
+        let unused = glist(diags.iter().filter(|d| d.diagnostic.code == "unused_variable"), |d| {
+            format!("({}, {})", rng(d), gbool(d.diagnostic.message.contains("assigned a value")))
+        });
         let shadowing = glist(diags.iter().filter(|d| d.diagnostic.code == "shadowing"), |d| {
             let s = &d.diagnostic.secondary_labels[0];
             format!("({}, {})", rng(d), grng((s.range.0 as usize, s.range.1 as usize)))
         });
         cases.push(
-            format!("CScope {} {} {} {} {} {} {}", chunk, refs, vars, roots_term, undefined, shadowing, unused),
+            format!("CScope {} {} {} {} {} {} {} the_lib {} {}", chunk, refs, vars, roots_term, undefined, shadowing, unused,
+                    glist(ignored.iter(), |s| gstr(s)), gbool(*allow_self)),
             json!({"kind": "scope", "source": src, "references": nr, "variables": nv, "shapes": shapes,
+                   "ignore_pattern": pattern, "allow_unused_self": allow_self,
                    "nontrivial": nv > 0 && nr > 1}),
         );
     }
